@@ -151,7 +151,9 @@ class SshSoftwareVersionParsedBase(SshSoftwareVersionBase):
             raise InvalidType()
 
         if parser.unparsed_length > 0 and version_separator is not None:
-            parser.parse_separator(version_separator)
+            parser.parse_separator(version_separator, max_length=1)
+            if not parser.unparsed_length:
+                raise InvalidValue(parsable, cls, 'version')
             parser.parse_string_by_length('version')
             version = parser['version']
         else:
